@@ -100,11 +100,19 @@ impl<'a> ExpressionEvaluator<'a> {
         self.program().expect_next_token(Token::RightParen)?;
         self.program()
             .push_function_call_onto_stack_and_goto_it(function_name, bindings)?;
-        let value = self.evaluate_expression()?;
+        let mut result = self.evaluate_expression();
+        if let Err(err) = &mut result {
+            // Attribute the error to the function's body before leaving it.
+            self.program().populate_error_location(err);
+        }
+        // The call's stack frame must go away even if evaluating the body
+        // failed: the stack outlives the failed statement when we're at a
+        // breakpoint, and a stale frame would shadow the program's variables
+        // (and be popped by its next RETURN) once it continues.
         self.program()
             .pop_function_call_off_stack_and_return_from_it();
 
-        Ok(Some(value))
+        Ok(Some(result?))
     }
 
     fn evaluate_function_call(
